@@ -184,9 +184,9 @@ func goKinds(n NodeCfg) []string {
 	case n.Func:
 		return []string{"funcopt", "funcbld"}
 	case n.Retry && n.Fb:
-		return []string{"structfb", "plainretryfb"}
+		return []string{"structfb", "plainretryfb", "structovfb"}
 	case n.Retry && !n.Fb:
-		return []string{"struct", "plainretry"}
+		return []string{"struct", "plainretry", "structov", "structzero"}
 	case !n.Retry && n.Fb:
 		return []string{"plainfb"}
 	default:
@@ -673,6 +673,28 @@ func (n *structNode) Post(ctx context.Context, shared *flyt.SharedStore, p, x an
 
 type structFbNode struct{ structNode }
 
+// struct nodes that embed *flyt.BaseNode but answer the retry settings themselves: the embedded settings are a decoy
+type structOvNode struct {
+	structNode
+	n int
+	w time.Duration
+}
+
+func (n *structOvNode) GetMaxRetries() int     { return n.n }
+func (n *structOvNode) GetWait() time.Duration { return n.w }
+
+type structOvFbNode struct{ structOvNode }
+
+// a struct node whose BaseNode was not made by NewBaseNode: a zero value to which the options were applied afterwards
+func newZeroBase(n int, w time.Duration) *flyt.BaseNode {
+	b := &flyt.BaseNode{}
+	flyt.WithMaxRetries(n)(b)
+	flyt.WithWait(w)(b)
+	return b
+}
+
+func (n *structOvFbNode) ExecFallback(p any, err error) (any, error) { return n.c.fallback(p, err) }
+
 func (n *structFbNode) ExecFallback(p any, err error) (any, error) { return n.c.fallback(p, err) }
 
 // stateless zero-size node types: all pointers to them share one address, only the dynamic type tells them apart
@@ -808,6 +830,10 @@ func buildFuncNode(c *leafCore, nc NodeCfg, builderForm bool) flyt.Node {
 	execR := func(ctx context.Context, p flyt.Result) (flyt.Result, error) {
 		v, eres, err := c.exec(ctx, reg.ObserveResult(p))
 		if err != nil {
+			if c.s.att[c.id]%2 == 0 {
+				// a failed attempt may report its error both ways: the error return value is what counts
+				return flyt.NewErrorResult(err), err
+			}
 			return flyt.Result{}, err
 		}
 		if eres != nil {
@@ -888,6 +914,12 @@ func (s *scnRun) buildLeaf(id int) flyt.Node {
 		return &structNode{BaseNode: flyt.NewBaseNode(flyt.WithMaxRetries(nc.N), flyt.WithWait(wait)), c: c}
 	case "structfb":
 		return &structFbNode{structNode{BaseNode: flyt.NewBaseNode(flyt.WithMaxRetries(nc.N), flyt.WithWait(wait)), c: c}}
+	case "structzero":
+		return &structNode{BaseNode: newZeroBase(nc.N, wait), c: c}
+	case "structov":
+		return &structOvNode{structNode: structNode{BaseNode: flyt.NewBaseNode(flyt.WithMaxRetries(nc.N%3+1), flyt.WithWait(0)), c: c}, n: nc.N, w: wait}
+	case "structovfb":
+		return &structOvFbNode{structOvNode{structNode: structNode{BaseNode: flyt.NewBaseNode(flyt.WithMaxRetries(nc.N%3+1), flyt.WithWait(0)), c: c}, n: nc.N, w: wait}}
 	case "plain":
 		return &plainNode{c: c}
 	case "zerosize":
@@ -1080,6 +1112,9 @@ func runEngineScenarioFull(cfg EngineCfg, script Script, viaFlowRun bool, nest *
 	reg0.RunCtxKind = cfg.CtxKind
 	s := &scnRun{nest: nest, flowRun: viaFlowRun, cfg: cfg, reg: reg0, script: script, store: flyt.NewSharedStore(), tok: 1,
 		nodes: map[int]flyt.Node{}, maxCb: 400}
+	if cfg.GenMode == "longloop" {
+		s.maxCb = 20000 // a legitimately long run
+	}
 	for id := range cfg.Nodes {
 		s.node(id+1, 0)
 	}
